@@ -304,7 +304,10 @@ PROPS = {
         "assumptions": COMMON_ASSUME,
     },
     "C20": {
-        "units": [{"pkg": "./c20", "shards": 4, "shards_thorough": 16, "timeout": 600}],
+        "units": [
+            {"pkg": "./c20", "run": "TestC20LogLine|TestC20EachField|TestC20Uint16|TestC20I32toa|TestC20UUID|TestC20STS|TestC20ProxyLogging|TestC20ProxyFinalStatus", "shards": 4, "shards_thorough": 16, "timeout": 600},
+            {"pkg": "./c20", "run": "TestC20ConcurrentLogging", "race": True, "shards": 2, "shards_thorough": 4, "timeout": 600},
+        ],
         "fuzz": [],
         "rule": ("rapid-generated (format, event) pairs: format = random sequence over logger.Fields, $header.<Name> and literal text "
                  "(plus the two shipped formats); event = End in [1970,2262) with any ns and fixed zone offset, duration 0..10^6 s, status 100-999, "
